@@ -1,2 +1,49 @@
-(* C13 — property theorems only. *)
-From Dastard Require Import Common.ZX C13.Model C13.ModelFloat C13.Spec C13.Proofs.
+(* C13 — property theorems only: each closed by [exact], each followed by Print Assumptions.
+   FR f = the real value of the float64 f, Ffin f = f is finite, RN = rounding to nearest even in
+   binary64 (FloatKit.v); S0 V2 S1 S2 MX = the exact integer sums of Model.v. *)
+From Coq Require Import ZArith Reals Floats List QArith.
+From Flocq Require Import Core.
+From Dastard Require Import Common.ZX C13.Model C13.ModelFloat C13.Spec C13.FloatKit C13.Proofs.
+
+(* No rounding occurs in the two accumulation loops of AnalyzeData: the float accumulators hold the
+   exact integer (half-integer for the slope accumulator) sums. *)
+Theorem sums_exact :
+  forall signed p raw,
+    words_ok raw = true -> (1 <= p)%Z -> (p + 1 <= zlen raw)%Z ->
+    (p * p * 2 ^ 17 < 2 ^ 53)%Z -> ((zlen raw - p) * 2 ^ 32 < 2 ^ 53)%Z ->
+    let ds := map (interp signed) raw in
+    let val := fst (acc_pre signed p raw) in
+    let valPTDelta := snd (acc_pre signed p raw) in
+    let sum := fst (fst (acc_post signed p raw)) in
+    let sum2 := snd (fst (acc_post signed p raw)) in
+    let max := snd (acc_post signed p raw) in
+    (Ffin val /\ FR val = IZR (S0 ds p)) /\
+    (Ffin valPTDelta /\ FR valPTDelta = (IZR (V2 ds p) / 2)%R) /\
+    (Ffin sum /\ FR sum = IZR (S1 ds p)) /\
+    (Ffin sum2 /\ FR sum2 = IZR (S2 ds p)) /\
+    (Ffin max /\ FR max = Rmax (FR (ptm_of signed p raw)) (IZR (MX ds p))).
+Proof. exact sums_exact_all. Qed.
+Print Assumptions sums_exact.
+
+(* Rounding structure of the five results (ptmean_one_rounding and its companions): the pre-trigger
+   mean is ONE correctly rounded division of the exact sum; delta two roundings; average two; peak one;
+   the mean square is the code's expansion with one rounding per operation, clamped at 0, then a
+   correctly rounded square root.  All five results are finite. *)
+Theorem scalars_rounding_structure :
+  forall signed p raw,
+    words_ok raw = true -> (2 <= p)%Z -> (p + 1 <= zlen raw)%Z ->
+    (p * p * 2 ^ 17 < 2 ^ 53)%Z -> ((zlen raw - p) * 2 ^ 32 < 2 ^ 53)%Z ->
+    let ds := map (interp signed) raw in
+    let N := (zlen raw - p)%Z in
+    let mu := RN (IZR (S0 ds p) / IZR p) in
+    let m1 := RN (IZR (S1 ds p) / IZR N) in
+    let m2 := RN (IZR (S2 ds p) / IZR N) in
+    let ms := RN (RN (m2 - RN (RN (2 * mu) * m1)) + RN (mu * mu)) in
+    exists s, analyze signed p raw = Ok s /\
+      (Ffin (s_ptm s) /\ FR (s_ptm s) = mu) /\
+      (Ffin (s_delta s) /\ FR (s_delta s) = RN (RN (IZR (V2 ds p) / 2 * 12) / IZR (p * (p + 1)))) /\
+      (Ffin (s_avg s) /\ FR (s_avg s) = RN (m1 - mu)) /\
+      (Ffin (s_rms s) /\ FR (s_rms s) = RN (R_sqrt.sqrt (Rmax 0 ms))) /\
+      (Ffin (s_peak s) /\ FR (s_peak s) = RN (Rmax mu (IZR (MX ds p)) - mu)).
+Proof. exact analyze_structure. Qed.
+Print Assumptions scalars_rounding_structure.
